@@ -1159,6 +1159,7 @@ def scheduled_row_jobs():
 
 # extension modules merged into this property's job list (vdriver.ext_jobs / ext_meta)
 EXT = [
+    ("C02_sscl", None),
     # the scaled fast paths differ from the general path only by their main loops / bounds helper: C08's jobs for them are C02 obligations
     # (an implementation that samples a different pixel is not bit-identical) (seeds C02-5, C08-3, C08-4)
     ("C08", lambda n: n.startswith(("pad_bounds", "scl."))),
